@@ -376,7 +376,7 @@ func (ex *Exec) constToValue(cv constant.Value, t types.Type) *Value {
 
 func (ex *Exec) specField(env *Env, e *EField) *Value {
 	// qualified identifier pkg.Name
-	if id, ok := e.X.(*EIdent); ok && env.pkg != nil {
+	if id, ok := e.X.(*EIdent); ok {
 		if _, bound := env.vars[id.Name]; !bound {
 			if p := ex.prog.importedPkg(env.pkg, id.Name); p != nil {
 				if env.fr == nil || ex.prog.lookupLocal(env.fr.fn, id.Name, env.pos) == nil {
